@@ -58,6 +58,33 @@ func shoutHook(v reflect.Value) reflect.Value {
 
 func identityHook(v reflect.Value) reflect.Value { return v }
 
+var nestedEvs = func() []*bexpr.Evaluator {
+	var out []*bexpr.Evaluator
+	for _, tx := range []string{`any xs as x { x.f == 2 }`, `not (n matches "^q") and (all m as k, v { v != "zz" })`, `missing.key == 1 or xs.0.f == 1`} {
+		ev, err := bexpr.CreateEvaluator(tx, bexpr.WithUnknownValue("zz"))
+		if err != nil {
+			panic(err)
+		}
+		out = append(out, ev)
+	}
+	return out
+}()
+
+var nestedDoc = map[string]interface{}{"xs": []interface{}{map[string]interface{}{"f": 1}, map[string]interface{}{"f": 2}}, "m": map[string]interface{}{"a": "b"}, "n": "name"}
+
+// nestedHook returns its argument; before that it uses the library itself - evaluators with
+// quantifiers, regular expressions, an unknown value, a failing lookup - as a hook that consults
+// a policy or a cache does. Evaluation is re-entrant: the outer evaluation is not disturbed.
+func nestedHook(v reflect.Value) reflect.Value {
+	for _, ev := range nestedEvs {
+		ev.Evaluate(nestedDoc)
+	}
+	if _, err := bexpr.CreateEvaluator("a == "); err == nil {
+		panic("harness: syntax error accepted")
+	}
+	return v
+}
+
 func constHook(reflect.Value) reflect.Value { return reflect.ValueOf("K") }
 
 // Options builds the bexpr option list (in canonical order).
@@ -78,6 +105,8 @@ func (o Opts) Options() []bexpr.Option {
 		out = append(out, bexpr.WithHookFn(constHook))
 	case ref.HookShout:
 		out = append(out, bexpr.WithHookFn(shoutHook))
+	case ref.HookNested:
+		out = append(out, bexpr.WithHookFn(nestedHook))
 	}
 	if o.MaxExpr != 0 {
 		out = append(out, bexpr.WithMaxExpressions(o.MaxExpr))
